@@ -242,11 +242,11 @@ theorem stepOp_si_j (op : Op) (hop : OpSafe op) : Pres (SI J) (stepOp op) := by
   have hc := emit_si (J := J) .conflict rfl rfl
   have hn := emit_si (J := J) .nosleeper rfl rfl
   have hadv : ∀ ms ds, Pres (SI J) (updK fun k => k.advance ms ds) := fun ms ds =>
-    updK_si _ (fun k => KGMono.advance k ms ds) (fun k => KNMono.advance k ms ds) (fun k => KStep.advance k ms ds)
+    updK_si _ (fun k => KGMono.advance k ms ds) (fun k => KNMono.advance k ms ds) (fun k => KStep.advance k ms ds) (fun k hk => KDMono.advance k ms ds hk)
   have hdie : ∀ p st, Pres (SI J) (updK fun k => k.die p st) := fun p st =>
-    updK_si _ (fun k => KGMono.die k p st) (fun k => KNMono.die k p st) (fun k => KStep.die k p st)
+    updK_si _ (fun k => KGMono.die k p st) (fun k => KNMono.die k p st) (fun k => KStep.die k p st) (fun k hk => KDMono.die k p st hk)
   have hflt : ∀ n p st, Pres (SI J) (updK fun k => k.addFault n p st) := fun n p st =>
-    updK_si _ (fun k => KGMono.addFault k n p st) (fun k => KNMono.addFault k n p st) (fun k => KStep.addFault k n p st)
+    updK_si _ (fun k => KGMono.addFault k n p st) (fun k => KNMono.addFault k n p st) (fun k => KStep.addFault k n p st) (fun k _ => KDMono.addFault k n p st)
   have hrl := handleMessage_si_j (J := J) none _ reload_safe
   cases op with
   | req cid msg =>
@@ -273,7 +273,7 @@ theorem stepTail_si : Pres (SI J) stepTail := by
 
 theorem stepM_of (op : Op) (h1 : Pres (SI J) (stepOp op)) : Pres (SI J) (stepM op) := by
   have h2 := stepTail_si (J := J)
-  have h3 : Pres (SI J) (updK Kernel.beginStep) := updK_si _ KGMono.beginStep KNMono.beginStep KStep.beginStep
+  have h3 : Pres (SI J) (updK Kernel.beginStep) := updK_si _ KGMono.beginStep KNMono.beginStep KStep.beginStep (fun k _ => KDMono.beginStep k)
   unfold stepM
   aesop (add safe apply h1, safe apply h2, safe apply h3) (rule_sets := [Sg])
     (config := { terminal := true, useDefaultSimpSet := false, useSimpAll := false, maxRuleApplications := 3000 })
@@ -298,117 +298,23 @@ theorem si_init (cfg : List Watcher) (bs : List Behav) (aw : Nat) (hcfg : ∀ w 
   rd := fun r hr => by cases hr
   uniq := fun p => by simp [pendCount, initState]
   reap := fun p st h => by simp [initState] at h
+  pos := ⟨by simp [initState], fun q hq => by simp [initState] at hq⟩
+  wpar := fun o ho => by simp [initState] at ho
   just := fun jm hj => by cases hj
 
-/-! ### pids are positive (the daemon is "pid 0" in the `ppid` field) -/
-
-/-- the pid counter and every pid of the process table are positive -/
-def PosInv (s : State) : Prop := 0 < s.k.nextPid ∧ ∀ q ∈ s.k.procs.map (·.pid), 0 < q
-
-theorem pos_frame {α : Type} {m : M α} (h : ∀ s, (m s).2.k = s.k) : Pres PosInv m := by
-  intro s hs
-  unfold PosInv
-  rw [h s]; exact hs
-
-macro "pos_tac" : tactic =>
-  `(tactic| (apply pos_frame; intro s; first
-      | rfl
-      | (simp only [modS, modA, emit, emitEv, emitRep]; done)
-      | (simp only [modS, modA, emit, emitEv, emitRep]; split <;> rfl)))
-
-theorem pos_kstep {s s' : State} (h : PosInv s) (hk : KStep s.k s'.k) : PosInv s' := by
-  unfold PosInv
-  rw [hk.nextPid, hk.pids]; exact h
-
-theorem pos_spawnAdopt (u wid : Nat) : Pres PosInv (spawnAdopt u wid) := by
-  intro s hs
-  cases hr : (s.k.spawn).2 with
-  | none =>
-    rw [spawnAdopt_none u wid s hr]
-    exact pos_kstep hs (spawn_none (k' := (s.k.spawn).1) (by rw [← hr]))
-  | some pid =>
-    rw [spawnAdopt_some u wid s pid hr]
-    obtain ⟨hpe, n, hnp, hpr⟩ := spawn_some (k := s.k) (k' := (s.k.spawn).1) (pid := pid) (by rw [← hr])
-    refine ⟨by show 0 < (s.k.spawn).1.nextPid; rw [hnp]; omega, ?_⟩
-    intro q hq
-    simp only [hpr] at hq
-    rcases List.mem_append.mp hq with hq | hq
-    · exact hs.2 q hq
-    · simp only [List.mem_range'_1] at hq
-      have := hs.1
-      omega
-
-theorem pos_trySetNp (u : Nat) (n : Int) : Pres PosInv (trySetNp u n) := by
-  apply pos_frame; intro s
-  unfold trySetNp
-  simp only
-  generalize (if n < 0 then (0 : Int) else n) = n'
-  split <;> rfl
-
-theorem pos_registerNew (w : Watcher) : Pres PosInv (registerNew w) := by
-  apply pos_frame; intro s
-  unfold registerNew registerChecked
-  split
-  · rfl
-  · split <;> rfl
-
-theorem posLeafX : LeafX PosInv where
-  emit := fun o => by pos_tac
-  runK := fun f hf s hs => pos_kstep hs (hf s.k)
-  emitEv := fun w t q x => by pos_tac
-  popPid := fun u q => by pos_tac
-  bumpHook := fun u h i => by pos_tac
-  setObjStopping := fun q b => by pos_tac
-  setRc := fun q rc => by pos_tac
-  markBlocked := by pos_tac
-  emitRep := fun c i a b d => by pos_tac
-  setStatus := fun u st => by pos_tac
-  trySetNp := pos_trySetNp
-  spawnAdopt := pos_spawnAdopt
-  setWOpt := fun u c => by pos_tac
-  freshId := by pos_tac
-  pushFrame := fun f => by pos_tac
-  removeFrame := fun f => by pos_tac
-  setFrameK := fun f k => by pos_tac
-  armFrame := fun f => by pos_tac
-  pushSleeper := fun sl => by pos_tac
-  armTop := fun t => by pos_tac
-  setClosed := by pos_tac
-  setStopping := by pos_tac
-  setRestarting := by pos_tac
-  setLoopStop := fun b => by pos_tac
-  setSocketEvent := fun b => by pos_tac
-  setSockReady := fun b => by pos_tac
-  clearDone := by pos_tac
-  unregister := fun u => by pos_tac
-  registerNew := fun w _ => pos_registerNew w
-  fireSleeper := fun sl s hs => pos_kstep hs (KStep.setNow s.k _)
-  enqueueResume := fun k v w => by pos_tac
-  enqueueCallback := fun n => by pos_tac
-  setSlot := fun v => by pos_tac
-  pushTop := fun t => by pos_tac
-  finishTop := fun t v => by pos_tac
-  topAddCb := fun t cb => by pos_tac
-  enqueue := fun r => by pos_tac
-  dequeue := by pos_tac
-
-theorem posInv_run (s : State) (ops : List Op) (h : PosInv s) : PosInv (run s ops) :=
-  run_pres (Spec.ofLeafX posLeafX) s ops h
-
-theorem posInv_init (cfg : List Watcher) (bs : List Behav) (aw : Nat) : PosInv (initState cfg bs aw) :=
-  ⟨by simp [initState], fun q hq => by simp [initState] at hq⟩
-
 /-- entering the justifying mode at the current end of the log -/
-theorem SI.enter {s : State} (h : SI none s) (hp : PosInv s) :
+theorem SI.enter {s : State} (h : SI none s) :
     SI (some ⟨s.log.length, ∃ w ∈ s.ws, w.stopSignal = 9⟩) s where
   pid := h.pid
   fr := h.fr
   rd := h.rd
   uniq := h.uniq
   reap := h.reap
+  pos := h.pos
+  wpar := h.wpar
   just := fun jm hj => by
     cases hj
-    refine ⟨?_, fun w hw h9 => ⟨w, hw, h9⟩, hp.2, hp.1⟩
+    refine ⟨?_, fun w hw h9 => ⟨w, hw, h9⟩⟩
     intro pre post p st hl hn
     exfalso
     have := congrArg List.length hl
